@@ -83,6 +83,11 @@ def window_selection(chk, prog, rule):
                 if ok:
                     nsel += 1
                     work.append((st.value.value, d))
+            if not ok and _row_permutation(st):
+                # sorting by date / renumbering the index keeps the set of rows: follow the frame through it
+                work.append((_row_permutation(st), d))
+                chk.ok(rule, where, construct, "reorders the rows, selects none")
+                continue
             if ok:
                 chk.ok(rule, where, construct, "rows selected by comparing the Date column with the window")
             else:
@@ -96,6 +101,95 @@ def window_selection(chk, prog, rule):
         chk.ok(rule, where, "window bounds", "both the start and the end date bound the selection")
     else:
         chk.violation(rule, where, "window bounds", "the selection does not bound the rows by both the start and the end date", loc=rw.loc())
+
+
+def _row_permutation(st):
+    """the frame name X for `Y = X.sort_values("Date"...)[.reset_index(drop=True)]` / `Y = X.reset_index(drop=True)` / `Y = X.sort_index()`: same rows, other order"""
+    if not (isinstance(st, ast.Assign) and isinstance(st.targets[0], ast.Name)):
+        return None
+    v = st.value
+    while isinstance(v, ast.Call) and isinstance(v.func, ast.Attribute) and v.func.attr in ("sort_values", "reset_index", "sort_index", "copy"):
+        if v.func.attr == "sort_values":
+            by = v.args[0] if v.args else next((k.value for k in v.keywords if k.arg == "by"), None)
+            if not (isinstance(by, ast.Constant) and by.value == "Date"):
+                return None
+        v = v.func.value
+    return v if isinstance(v, ast.Name) and v is not st.value else None
+
+
+def day_binding(chk, prog, rule):
+    """read_weather_inputs hands back a frame whose k-th row is the record of the k-th simulation day: the return is guarded by a raising test
+    that compares the Date column of the frame with the clock's `time_span` (row positions are what the daily step and the season-long
+    degree-day sums index by), and the frame that is compared is the frame that is returned"""
+    rw = prog.find_func("read_weather_inputs")
+    chk.fn(rw.key)
+    where = f"{rw.module}:{rw.qualname}"
+    rets = [r for r in walk_no_nested(rw.node) if isinstance(r, ast.Return)]
+    if len(rets) != 1 or not isinstance(rets[0].value, ast.Name):
+        raise AnalysisError("read_weather_inputs: expected `return <name>`")
+    frame = rets[0].value.id
+    # names that carry the Date column of the returned frame (one level of locals)
+    dates = set()
+    for a in walk_no_nested(rw.node):
+        if isinstance(a, ast.Assign) and isinstance(a.targets[0], ast.Name):
+            if any(isinstance(x, ast.Attribute) and x.attr == "Date" and isinstance(x.value, ast.Name) and x.value.id == frame for x in ast.walk(a.value)) or \
+               any(isinstance(x, ast.Subscript) and isinstance(x.value, ast.Name) and x.value.id == frame and isinstance(x.slice, ast.Constant) and x.slice.value == "Date" for x in ast.walk(a.value)):
+                dates.add(a.targets[0].id)
+    guards = []
+    body = rw.node.body
+    for i, st in enumerate(body):
+        if not isinstance(st, ast.If):
+            continue
+        t = st.test
+        has_span = any(isinstance(x, ast.Attribute) and x.attr == "time_span" for x in ast.walk(t))
+        has_dates = any((isinstance(x, ast.Name) and x.id in dates) or (isinstance(x, ast.Attribute) and x.attr == "Date" and isinstance(x.value, ast.Name) and x.value.id == frame)
+                        for x in ast.walk(t))
+        raises = st.body and all(isinstance(b, ast.Raise) for b in st.body[-1:]) and not st.orelse
+        if has_span and has_dates and raises:
+            guards.append((i, st))
+    if not guards:
+        chk.violation(rule, where, "return " + frame,
+                      "the clipped weather frame is returned without comparing its dates with the simulation days (clock.time_span): a missing, "
+                      "duplicated or out-of-order record shifts every later day onto another day's weather", loc=rw.loc(rets[0]))
+        return
+    i, g = guards[-1]
+    # nothing after the guard changes the row set / order of the frame or of the compared dates
+    later = [s for s in body[i + 1:] for a in ast.walk(s) if isinstance(a, ast.Assign) and any(isinstance(t, ast.Name) and t.id == frame for t in a.targets)]
+    # and the dates compared are taken from the frame after its last re-definition
+    last_def = max((j for j, s in enumerate(body) if any(isinstance(a, ast.Assign) and any(isinstance(t, ast.Name) and t.id == frame for t in a.targets) for a in ast.walk(s))), default=-1)
+    date_defs = [j for j, s in enumerate(body) if isinstance(s, ast.Assign) and isinstance(s.targets[0], ast.Name) and s.targets[0].id in dates
+                 and any(isinstance(x, ast.Name) and x.id == s.targets[0].id for x in ast.walk(g.test))]
+    stale = any(j < last_def for j in date_defs)
+    if later or stale:
+        chk.violation(rule, where, norm(g.test)[:100],
+                      "the frame is re-defined after its dates were compared with the simulation days: the check does not describe what is returned", loc=rw.loc(g))
+    else:
+        chk.ok(rule, where, norm(g.test)[:100], "raising guard compares the returned frame's dates with clock.time_span")
+    # equality of the dates themselves, not of their number: an ==/!= (or .equals) whose two sides are the date vector and time_span
+    def _is_dates(x):
+        return (isinstance(x, ast.Name) and x.id in dates) or (isinstance(x, ast.Attribute) and x.attr == "Date" and isinstance(x.value, ast.Name) and x.value.id == frame) \
+            or (isinstance(x, ast.Call) and isinstance(x.func, ast.Attribute) and x.func.attr in ("to_numpy", "reset_index", "tolist") and _is_dates(x.func.value)) \
+            or (isinstance(x, ast.Attribute) and x.attr in ("values", "array") and _is_dates(x.value)) \
+            or (isinstance(x, ast.Call) and norm(x.func) in ("pd.DatetimeIndex", "pd.Index", "list", "np.array", "np.asarray") and len(x.args) == 1 and _is_dates(x.args[0]))
+
+    def _is_span(x):
+        return (isinstance(x, ast.Attribute) and x.attr == "time_span") \
+            or (isinstance(x, ast.Call) and isinstance(x.func, ast.Attribute) and x.func.attr in ("to_numpy", "tolist") and _is_span(x.func.value)) \
+            or (isinstance(x, ast.Attribute) and x.attr in ("values", "array") and _is_span(x.value)) \
+            or (isinstance(x, ast.Call) and norm(x.func) in ("pd.DatetimeIndex", "pd.Index", "list", "np.array", "np.asarray") and len(x.args) == 1 and _is_span(x.args[0]))
+
+    eq = False
+    for x in ast.walk(g.test):
+        if isinstance(x, ast.Compare) and len(x.ops) == 1 and isinstance(x.ops[0], (ast.Eq, ast.NotEq)):
+            a, b = x.left, x.comparators[0]
+            eq = eq or (_is_dates(a) and _is_span(b)) or (_is_span(a) and _is_dates(b))
+        if isinstance(x, ast.Call) and isinstance(x.func, ast.Attribute) and x.func.attr in ("equals", "array_equal") and x.args:
+            ops = ([x.func.value] if x.func.attr == "equals" else []) + list(x.args)
+            eq = eq or (any(_is_dates(o) for o in ops) and any(_is_span(o) for o in ops))
+    if eq:
+        chk.ok(rule, where, "elementwise comparison", "dates compared for equality with the simulation days")
+    else:
+        chk.violation(rule, where, "elementwise comparison", "the guard does not compare the dates themselves with the simulation days", loc=rw.loc(g))
 
 
 # --------------------------------------------------------------------------------------------- whole-row operations
